@@ -11,6 +11,7 @@ pyoak's own classification.
 """
 from __future__ import annotations
 
+import enum
 import os
 import sys
 import types
@@ -116,6 +117,15 @@ TABLE: list[tuple[str, str, bool, str, list[F]]] = [
     ("IterBlock2", "IterBlock", False, "", [F("label", "str", "prop", "str", '""')]),
     ("Loop", "Expr", False, "", [F("var", "str", "prop", "str", '"i"'), F("body", "IterBlock", "child", "iterblock")]),
     ("Carrier", "Expr", False, "", [F("tok", "Tok", "prop", "tok")]),
+    # enum members next to same-valued plain values / members of another enum, inside tuples and frozensets (C01 only:
+    # such unions do not round-trip)
+    ("EnumBag", "Expr", False, "", [F("vals", "tuple[Any, ...]", "prop", "ebag", "()"), F("cs", "frozenset[Any]", "prop", "eset", "frozenset()"), F("k", "Kind", "prop", "kind", "Kind.NUM")]),
+    # an Any-typed property holding (mutable) containers the library must never write to (C10 only)
+    ("AnyBox", "Expr", False, "", [F("meta", "Any", "prop", "anybox", "None")]),
+    # field names that are parameter names inside the library
+    ("Deco", "Expr", False, "", [F("node", "Expr | None", "opt", "any", "None"), F("value", "tuple[Expr, ...]", "tuple", "any", "()"), F("other", "str", "prop", "str", '""')]),
+    # a class defined inside a function (__qualname__ != __name__)
+    ("LocalLeaf", "Expr", False, "", [F("a", "str", "prop", "str", '""')]),
     # a bookkeeping field that differs between otherwise content-equal nodes
     ("Serial", "Expr", False, "", [F("name", "str", "prop", "str"), F("serial", "int", "prop", "int", "field(init=False, compare=False, default_factory=_next_serial)", compare=False, init=False)]),
     # field names that sort before "__type"
@@ -166,6 +176,18 @@ class Color(enum.Enum):
     GREEN = "green"
 
 
+class Shade(enum.Enum):
+    """a second enum with the values of Color"""
+    RED = "red"
+    GREEN = "green"
+
+
+class Kind(enum.Enum):
+    """two members whose values have the same str()"""
+    NUM = 1
+    TXT = "1"
+
+
 class Op(str, enum.Enum):
     """the string-enum idiom: str(Op.ADD) is 'Op.ADD', the raw characters are '+'"""
     ADD = "+"
@@ -205,17 +227,19 @@ def render(permuted: bool) -> str:
     for name, base, slots, body, own in TABLE:
         flds = list(reversed(own)) if permuted else own
         deco = "@dataclass(frozen=True, kw_only=True" + (", slots=True" if slots else "") + ")"
-        out.append(deco)
-        out.append(f"class {name}({base}):")
+        cl = [deco, f"class {name}({base}):"]
         if not flds and not body:
-            out.append("    pass")
+            cl.append("    pass")
         for f in flds:
             if f.default is None:
-                out.append(f"    {f.name}: {f.ann}")
+                cl.append(f"    {f.name}: {f.ann}")
             else:
-                out.append(f"    {f.name}: {f.ann} = {f.default}")
+                cl.append(f"    {f.name}: {f.ann} = {f.default}")
         if body:
-            out.append(body)
+            cl.append(body)
+        if name.startswith("Local"):
+            cl = [f"def _make_{name}():"] + ["    " + x for x in cl] + [f"    return {name}", "", f"{name} = _make_{name}()"]
+        out.extend(cl)
         out.append("")
     return "\n".join(out)
 
@@ -236,6 +260,8 @@ def _load() -> types.ModuleType:
 M = _load()
 CLS: dict[str, type] = {name: getattr(M, name) for name, *_ in TABLE}
 Color = M.Color
+Shade = M.Shade
+Kind = M.Kind
 Tok = M.Tok
 Op = M.Op
 
@@ -273,8 +299,8 @@ CHILD_FIELDS: dict[str, list[F]] = _Tab({n: [f for f in fs if f.kind != "prop"] 
 PROP_FIELDS: dict[str, list[F]] = _Tab({n: [f for f in fs if f.kind == "prop"] for n, fs in FIELDS.items()})
 
 NODE_CLASSES = [n for n in _OWN if n != "Expr"]
-LEAF_CLASSES = ["LeafA", "LeafB", "LeafA2", "Meta", "Vals", "FS", "Carrier", "Serial", "Upper", "Lit", "Located", "Typed", "Dyn", "CaseMix", "Both", "FS2"]
-INNER_CLASSES = ["Pair", "Seq", "Fixed", "Mixed", "Falsy", "SeqPlus", "Loop", "IterBlock", "IterBlock2"]
+LEAF_CLASSES = ["LeafA", "LeafB", "LeafA2", "Meta", "Vals", "FS", "Carrier", "Serial", "Upper", "Lit", "Located", "Typed", "Dyn", "CaseMix", "Both", "FS2", "EnumBag", "AnyBox", "LocalLeaf"]
+INNER_CLASSES = ["Pair", "Seq", "Fixed", "Mixed", "Falsy", "SeqPlus", "Loop", "IterBlock", "IterBlock2", "Deco"]
 
 def redefine_dyn(keep: bool = False):
     """Define `Dyn` again in the same module: first an OLDER version of the class (one field less), which is
@@ -359,7 +385,10 @@ from pyoak.origin import EntireSourcePosition, Origin as _Origin  # noqa: E402
 ORIGINS["c:a:0-0"] = _code("a", 0, 0)
 ORIGINS["c:a:0-5@l2"] = CodeOrigin(SRC["a"], get_code_range(0, 2, 0, 5, 2, 5))
 ORIGINS["e:a"] = _Origin(SRC["a"], EntireSourcePosition())
-EXTRA_ORIGIN_KEYS = ["c:a:0-0", "c:a:0-5@l2", "e:a"]
+from pyoak.origin import PositionSet, SourceSet  # noqa: E402
+
+ORIGINS["ss:empty"] = _Origin(SourceSet(()), PositionSet(()))  # merged from zero inputs: a falsy source
+EXTRA_ORIGIN_KEYS = ["c:a:0-0", "c:a:0-5@l2", "e:a", "ss:empty"]
 
 # ---- values -----------------------------------------------------------------------------------------
 from pathlib import Path  # noqa: E402
@@ -419,6 +448,8 @@ def _colliding_singletons(n: int = 3) -> list[list[int]]:
 
 _CS = _colliding_singletons()
 FS2_POOL = [[_CS[0], _CS[1], _CS[2]], [_CS[2], _CS[1], _CS[0]], [_CS[1], _CS[2], _CS[0]], [_CS[1], _CS[0]], [_CS[0], _CS[1]]] + [[], [[1]], [[1], [2]], [[2], [1]], [[1, 2], [3]], [[3], [1, 2]], [[1], [1, 2], [2]], [[2], [1, 2], [1]], [[8], [16], [0]], [[16], [8], [0]], [[1, 9], [9, 1, 17]], [[17, 1, 9], [9, 1]]]
+EBAG_POOL = [[], ["Color.RED"], ["red"], ["Shade.RED"], ["Color.RED", "Color.GREEN"], ["Shade.RED", "Shade.GREEN"], ["red", "green"], ["Kind.NUM"], [1], ["Kind.TXT"], ["1"], ["Op.ADD"], ["+"]]
+ANYBOX_POOL = [None, 1, "s", {"span": ["t", 1, 2]}, [["t", 1, 2], ["s", 3]], {"a": {"b": ["t", 1]}}, ["t", 1, 2]]
 FS_POOL = [[], ["a"], ["a", "b"], ["b", "a"], ["x", "yy", "zzz"], ["zzz", "x", "yy"], ["8", "16", "0"], ["16", "8", "0"]]
 TOK_POOL = ["t", "u", ""]
 
@@ -439,7 +470,42 @@ def pool_for(vt: str) -> list[Any]:
         "tok": TOK_POOL,
         "op": ["ADD", "SUB"],
         "fs2": FS2_POOL,
+        "ebag": EBAG_POOL,
+        "eset": EBAG_POOL,
+        "kind": ["NUM", "TXT"],
+        "anybox": ANYBOX_POOL,
     }[vt]
+
+
+def _enum_tok(x: Any) -> Any:
+    if isinstance(x, str) and "." in x and x.split(".")[0] in ("Color", "Shade", "Kind", "Op"):
+        return {"Color": Color, "Shade": Shade, "Kind": Kind, "Op": Op}[x.split(".")[0]][x.split(".")[1]]
+    return x
+
+
+def _anybox(j: Any) -> Any:
+    """fresh containers for every decode; ["t", ...] stands for a tuple, ["s", ...] for a set"""
+    if isinstance(j, dict):
+        return {k: _anybox(v) for k, v in j.items()}
+    if isinstance(j, list):
+        if j and j[0] == "t":
+            return tuple(_anybox(x) for x in j[1:])
+        if j and j[0] == "s":
+            return {_anybox(x) for x in j[1:]}
+        return [_anybox(x) for x in j]
+    return j
+
+
+def _anybox_enc(v: Any) -> Any:
+    if isinstance(v, dict):
+        return {k: _anybox_enc(x) for k, x in v.items()}
+    if isinstance(v, tuple):
+        return ["t"] + [_anybox_enc(x) for x in v]
+    if isinstance(v, (set, frozenset)):
+        return ["s"] + sorted(_anybox_enc(x) for x in v)
+    if isinstance(v, list):
+        return [_anybox_enc(x) for x in v]
+    return v
 
 
 def decode(vt: str, j: Any) -> Any:
@@ -458,6 +524,13 @@ def decode(vt: str, j: Any) -> Any:
         return Tok(j)
     if vt == "op":
         return Op[j]
+    if vt in ("ebag", "eset"):
+        els = [_enum_tok(x) for x in j]
+        return tuple(els) if vt == "ebag" else frozenset(els)
+    if vt == "kind":
+        return Kind[j]
+    if vt == "anybox":
+        return _anybox(j)
     if vt == "fs2":
         out: frozenset = frozenset()
         for inner in j:  # built by successive unions, in the order given
@@ -494,6 +567,13 @@ def encode(vt: str, v: Any) -> Any:
         return v.name
     if vt == "fs2":
         return sorted(sorted(x) for x in v)
+    if vt in ("ebag", "eset"):
+        els = [f"{type(x).__name__}.{x.name}" if isinstance(x, enum.Enum) else x for x in v]
+        return els if vt == "ebag" else sorted(els, key=repr)
+    if vt == "kind":
+        return v.name
+    if vt == "anybox":
+        return _anybox_enc(v)
     raise KeyError(vt)
 
 
@@ -503,10 +583,8 @@ def canon(v: Any) -> Any:
         return ("set", tuple(sorted((canon(e) for e in v), key=repr)))
     if isinstance(v, tuple):
         return ("tuple", tuple(canon(e) for e in v))
-    if isinstance(v, Op):
-        return ("Op", v.name)
-    if isinstance(v, Color):
-        return ("Color", v.name)
+    if isinstance(v, enum.Enum):
+        return (type(v).__name__, v.name)
     if isinstance(v, Path):
         return ("path", v.as_posix())
     if isinstance(v, Tok):
